@@ -465,6 +465,8 @@ void dataset_t::shuffle(const tensor_size_t feature) const
 
 indices_t dataset_t::shuffled(const tensor_size_t feature, indices_cmap_t samples) const
 {
+    check(samples);
+
     return byfeature(feature)->shuffled(m_feature_mapping(feature, 1), samples);
 }
 
